@@ -34,7 +34,8 @@ EXPLANATION = (
     "anchored functions' ASTs. C06_bounded, C06_tolerance, C06_contraction_step/_bound are proved for "
     "all workbooks/systems; C06_pass_total/C06_fuel_sufficient: the fuel #cells+1 never runs out (any workbook); "
     "C06_cone_pass/C06_decay/C06_exhausted/C06_converged: end-to-end bounds for contracting systems of cell "
-    "formulas from a built, quiescent cone (q^n decay; q/(1-q)(1+1e-5)tol after an early stop); "
+    "formulas from a built, quiescent cone (q^n decay; q/(1-q)(1+1e-5)tol after an early stop), a state every "
+    "history of evaluates and constant writes produces (C06_ready_*); "
     "C06_acyclic_partial/_total exclude range nodes and first use (both refuted: Refuted/C06_acyclic.v).")
 
 COLS = 'ABC'
@@ -584,7 +585,9 @@ def oracle(ctx, impl, wb, ops, label, iobs):
                         break
         # geometric decay (C06_decay / C06_exhausted, on the implementation): a contracting system of cell
         # formulas whose cone is already built ends, after p passes, within q^p of its distance before the call
-        if (wb.kind == 'cyclic' and q < 1 and settled and prev_cells is not None and not case['has_range']
+        # (q over the variables only, as in row_bound_f: references to constants belong to b)
+        qf = max(sum(abs(x) for j, x in enumerate(row) if wb.cells[j]['formula']) for row in A0)
+        if (wb.kind == 'cyclic' and qf < 1 and settled and prev_cells is not None and not case['has_range']
                 and wb.cells[t]['formula'] and exact([ob], wb.scale)):
             A, b = wb.matrix(values)
             xs = solve(A, b)
@@ -593,9 +596,9 @@ def oracle(ctx, impl, wb, ops, label, iobs):
                 e0 = max(abs(prev_cells[c][1] - xs[c]) for c in fcone)
                 e1 = max(abs(cells[c][1] - xs[c]) for c in fcone)
                 ctx.histogram['decay-checked'] = ctx.histogram.get('decay-checked', 0) + 1
-                if e1 > q ** p * e0:
+                if e1 > qf ** p * e0:
                     ctx.violation(case, f"after {p} passes the cone of {addr(t)} is {e1} from the fixed point, "
-                                  f"more than q^{p} * {e0} (q = {q})", impl=e1, expected=f"<= {q ** p * e0}")
+                                  f"more than q^{p} * {e0} (q = {qf})", impl=e1, expected=f"<= {qf ** p * e0}")
         if wb.kind == 'acyclic':
             want = as_q(impl.plain_value(wb, values, t))
             if ob['result'] != want:
